@@ -177,7 +177,10 @@ type W7T struct {
 	P0 *[0]byte           `json:"p0"`
 	M0 map[string][0]byte `json:"m0"`
 	P1 *[1]byte           `json:"p1"`
-	Z  int64              `json:"z"`
+	// unions that are not "null and one other": the general union codec
+	U int64  `json:"u"`
+	V *int64 `json:"v"`
+	Z int64  `json:"z"`
 }
 
 type W5T struct {
@@ -244,7 +247,8 @@ func init() {
 		// counts multiplied by an item width)
 		{"W7", rec("W7", fld("f", arr(P("float"))), fld("d", arr(P("double"))), fld("g", arr(P("double"))), fld("b", arr(P("boolean"))), fld("i", arr(P("int"))), fld("s", arr(P("int"))),
 			fld("x", arr(fixed("W7x", 4))), fld("m", mp(P("double"))), fld("n", mp(P("boolean"))), fld("k", mp(P("float"))),
-			fld("p0", un(P("null"), fixed("W7p", 0))), fld("m0", mp(fixed("W7m", 0))), fld("p1", un(P("null"), fixed("W7q", 1))), fld("z", P("long"))),
+			fld("p0", un(P("null"), fixed("W7p", 0))), fld("m0", mp(fixed("W7m", 0))), fld("p1", un(P("null"), fixed("W7q", 1))),
+			fld("u", un(P("long"), P("int"))), fld("v", un(P("null"), P("long"), P("int"))), fld("z", P("long"))),
 			reflect.TypeFor[W7T]()},
 	}
 }
